@@ -264,6 +264,8 @@ static int recv_events(m_ctx_t *c, int timeout) {
                  */
                 if (p && p->flags & M_SRC_ONESHOT) {
                     if (p->type != M_SRC_TYPE_PS) {
+                        /* No more events wanted: release its poll data now, the event may be kept by the user past the module's life */
+                        poll_set_new_evt(&c->ppriv, p, RM);
                         m_bst_remove(mod->srcs[p->type], p);
                     } else {
                         m_map_remove(mod->subscriptions, p->ps_src.topic);
